@@ -204,6 +204,21 @@ def nontrivial_runs(ctx, recs, pred):
         cur.append(r)
 
 
+def mc(ctx, cfg, **kw):
+    """tlc_mc; in the thorough tier with -coverage.  TLC prints interim coverage reports once a minute in which
+    sub-actions not reached yet show 0, so vlib's zero detection is bypassed (allow_zero) and redone here on
+    the LAST report only."""
+    cov = not ctx.quick and kw.get("expect_violation") is None
+    res = ctx.tlc_mc("Directory", "Directory.tla", cfg, coverage=cov, allow_zero=("Next", "Init", "ResetTo"), **kw)
+    if cov and res.get("ok"):
+        last = res["out"].split("The coverage statistics at")[-1]
+        dead = [m.group(0) for m in re.finditer(r"<(\w+) line \d+, col \d+ to line \d+, col \d+ of module (\w+)>: (\d+):(\d+)", last)
+                if int(m.group(4)) == 0 and m.group(1) not in ("Init",)]
+        if dead:
+            ctx.broken("vacuous: sub-actions never taken in %s: %s" % (cfg, dead[:5]))
+    return res
+
+
 def gen_cases(ctx, cfg):
     return ctx.tlc_gen("Directory", "GenDirectory.tla", cfg, marker="CASE", timeout=600)
 
@@ -219,10 +234,11 @@ def run(ctx):
                        "changed at least twice and (for HAMT runs) a sub-shard existed at some point")
     ctx.specdir("Directory")
     ex = cf.ThreadPoolExecutor(max_workers=8)
-    gen = lambda cfg, **kw: ex.submit(ctx.tlc_gen, "Directory", "GenDirectory.tla", cfg, **kw)
+    def gen(cfg, **kw):
+        time.sleep(0.1)        # vlib names TLC's metadir by millisecond
+        return ex.submit(ctx.tlc_gen, "Directory", "GenDirectory.tla", cfg, **kw)
     # ---- M (map + trie: Canonical, Resolvable for all kinds; the switching invariants belong to C16)
-    f_mc = ex.submit(ctx.tlc_mc, "Directory", "Directory.tla", "MCDirectoryMap.cfg", timeout=1500, coverage=not q,
-                     allow_zero=("ResetTo",), workers=4 if q else 8)
+    f_mc = ex.submit(mc, ctx, "MCDirectoryMap.cfg", timeout=1500, workers=4 if q else 8)
     # ---- G: histories x cases (all generated by TLC), harness build concurrently
     f_base = gen("GenDirectoryCasesBase15.cfg", marker="CASE", timeout=600)
     f_all = gen("GenDirectoryCases15.cfg", marker="CASE", timeout=600)
